@@ -195,7 +195,7 @@ class Weaver:
                 # VERIF_DROP_LOOPS=<C name>,...: print these functions WITHOUT their loop contracts (the function contract stays).  Used by
                 # ./check when the loop contracts of the spec do not apply to the function as it is now (fewer loops, clauses that name
                 # locals the body no longer has): such a harness is then only searched for counter-examples, never counted as proved.
-                loops_dropped = bool(loops) and cname in [x for x in os.environ.get('VERIF_DROP_LOOPS', '').split(',') if x]
+                loops_dropped = bool(loops) and bool({cname, re.sub(r'_ctor(\d+)$', r'_init\1', cname)} & {x for x in os.environ.get('VERIF_DROP_LOOPS', '').split(',') if x})   # a constructor is printed as <Class>_initN
                 if loops_dropped: loops = {}
                 if fpath is not None:
                     txt, info = p.fragment(fn, fpath, cname, '\n'.join(contract), {k: '\n'.join(v) for k, v in loops.items()})
